@@ -278,16 +278,20 @@ TypePara ==
        LET ind == At(Pick(<<0>>, <<0, 2>>, <<0, 1, 2, 3>>), v)
            l1 == LineAt(v)
            two == (v % 2 = 1) \/ keep < Depth
-           hard == two /\ Level = 2 /\ v % 4 = 3 IN
+           hard == two /\ Level = 2 /\ v % 4 = 3
+           (* the indentation of the first line spelled as a tab: it reaches the next tab stop, counted from the beginning of the
+              line - fewer than four columns (so no indented code) exactly when the container prefix does not end on a tab stop *)
+           tab == Level = 2 /\ v % 7 = 3 /\ ~InItemFirstLine /\ last.kind # "list" /\ Len(LineNow("x")) % 4 # 1 IN
        /\ IndOk(ind)
        /\ (keep < Depth => v % 2 = 0)                            \* one lazy spelling per variant pair is enough
        /\ LET l2 == <<W(WordAt(nblocks + 7)), W("cont")>>
               tx == IF two THEN <<[atoms |-> l1, hard |-> hard], [atoms |-> l2, hard |-> FALSE]>> ELSE <<[atoms |-> l1, hard |-> FALSE]>>
-              lines == IF two THEN <<Spaces(ind) \o LineSrc(l1) \o (IF hard THEN "\\" ELSE ""), LineSrc(l2)>> ELSE <<Spaces(ind) \o LineSrc(l1)>> IN
+              lead == IF tab THEN "{TAB}" ELSE Spaces(ind)
+              lines == IF two THEN <<lead \o LineSrc(l1) \o (IF hard THEN "\\" ELSE ""), LineSrc(l2)>> ELSE <<lead \o LineSrc(l1)>> IN
           /\ Leaf("para", "para", sep, Node("Paragraph", Parent, 0, 0, tx, ""), lines, keep)
           /\ tags' = tags \cup (IF keep < Depth THEN {"lazy-continuation"} ELSE {}) \cup LazyTag(sep)
                           \cup (IF keep < Depth /\ KF_LazyIndented(keep, ind) THEN {"lazy-after-indented-quote-content"} ELSE {})
-                          \cup NcIf(ind > 0 \/ keep < Depth) \cup NcSep(sep) \cup TitleLike(sep, l1)
+                          \cup NcIf(ind > 0 \/ keep < Depth \/ tab) \cup NcSep(sep) \cup TitleLike(sep, l1)
 
 TypeAtx ==
     \E sep \in Seps, v \in Variants :
